@@ -39,6 +39,8 @@ pub struct Stats {
     pub case_digest: u64,
     /// strict mode: used on replay, known findings are still honoured
     pub replaying: bool,
+    /// the first case this collector executed (fallback sample when a property recorded none)
+    pub first_case: Option<(bool, Vec<u32>)>,
 }
 
 impl Stats {
@@ -164,6 +166,9 @@ impl Stats {
             if self.samples.len() < MAX_SAMPLES {
                 self.samples.push(s);
             }
+        }
+        if self.first_case.is_none() {
+            self.first_case = other.first_case;
         }
         self.excluded_known += other.excluded_known;
         for (k, (n, d)) in other.known_hits {
